@@ -113,7 +113,7 @@ func (p *planner) multiDeleteWorlds() {
 			}
 			j := job{family: "multi-delete", w: w, wid: wid, order: order, corpus: pi%2 == 0, kv: "memory", every: 1}
 			if sp.allKV && pi%2 == 1 || pi%8 == 7 {
-				j.kv = p.kv()
+				j.kv = p.kinds[(si+pi/2)%len(p.kinds)] // a function of the case alone (replay)
 			}
 			// a slice of the orders also with a mid-history re-open / re-deliveries
 			if pi%6 == 5 {
@@ -153,7 +153,7 @@ func (p *planner) multiDeleteWorlds() {
 			if len(order) > 12 {
 				every = 2
 			}
-			j := job{family: "multi-delete", w: w, wid: wid, order: order, corpus: (o+i)%2 == 0, kv: p.kv(), every: every, search: o == 0}
+			j := job{family: "multi-delete", w: w, wid: wid, order: order, corpus: (o+i)%2 == 0, kv: p.kinds[(i+o)%len(p.kinds)], every: every, search: o == 0}
 			if o >= 2 {
 				historyMode(&j, 1+(o+i)%4, orng)
 			}
@@ -306,11 +306,13 @@ func deliverUnderFault(r *ev.Run, j *job, x *hw.Idx, h *kvHandle, fc *faultCtl, 
 	// nothing of an earlier arrival may still be on its way to the KV when the fault is armed
 	x.Quiesce()
 	if err := fc.install(kind, b.Ref, tgt); err != nil {
-		return false, fmt.Errorf("harness: arming %s: %w", kind, err)
+		r.Inconclusive(fmt.Sprintf("world %s: the harness could not arm the KV fault %s: %v", j.wid, kind, err))
+		return false, errStop
 	}
 	derr := x.Deliver(b)
 	if err := fc.remove(kind); err != nil {
-		return false, fmt.Errorf("harness: disarming %s: %w", kind, err)
+		r.Inconclusive(fmt.Sprintf("world %s: the harness could not disarm the KV fault %s: %v", j.wid, kind, err))
+		return false, errStop
 	}
 	x.Quiesce()
 	r.Count("kv_faults_armed", 1)
@@ -431,8 +433,9 @@ func pickFaults(w *hw.World, order []int, rng *rand.Rand, n int, preferDeletes b
 func (p *planner) faultWorlds() {
 	r := p.r
 	frng := r.Rand("kv-faults")
-	nOther := 0
+	wi := 0
 	emit := func(w *hw.World, wid string, orders int, orng *rand.Rand) {
+		wi++
 		if !r.Only(wid) {
 			return
 		}
@@ -452,8 +455,7 @@ func (p *planner) faultWorlds() {
 			corpus := o%3 != 2
 			j := job{family: "kv-fault", w: w, wid: wid, order: order, corpus: corpus, kv: "sqlite", every: 1, search: o == 0}
 			if o%4 == 1 {
-				j.kv = []string{"memory", "leveldb", "kv"}[nOther%3]
-				nOther++
+				j.kv = []string{"memory", "leveldb", "kv"}[(wi+o/4)%3] // a function of the case alone (replay)
 			}
 			j.faults = pickFaults(w, order, orng, 1+orng.Intn(3), !corpus, j.kv)
 			if len(j.faults) == 0 {
